@@ -185,7 +185,14 @@ def check_case(case: dict, deep: bool):
                   "PhaseSpaceFactorSWave", "EqualMassPhaseSpaceFactor"):
             tk = max(tol, 64 * EPS * amp_for(k, s, m1, m2))
             if k == "PhaseSpaceFactorSWave" and tk >= MEANINGLESS:
-                # the sign of the (cancelling) log argument decides Re: nothing to check in doubles
+                # the sign of the (cancelling) log argument decides Re: the stated tolerance allows
+                # anything, but nan / a real part that is grossly off is a total loss, not round-off:
+                # reported under its own signature (a floating-point finding, not an exact-math one)
+                v = val[k]
+                if not (math.isfinite(v.real) and math.isfinite(v.imag)) or abs(v.real - rho.real) > 1e-6 * abs(rho.real):
+                    fails.append(("swave_fp_breakdown_asymptotic",
+                                  f"lambdified PhaseSpaceFactorSWave={v} but exact Re=2q/sqrt(s)={rho.real!r} "
+                                  f"(log argument m1^2+m2^2-s+2 sqrt(s) q cancels completely in doubles) at {case}"))
                 notes.append(f"double_precision_meaningless:{k} e.g. Re={val[k].real!r} (exact {rho.real!r}) at s={sf!r} m1={m1f!r} m2={m2f!r}")
                 continue
             if not close(val[k].real, rho.real, tol, 0.0):
